@@ -70,39 +70,49 @@ def register(claim, na):
     claim("C01", "other", TC + "; MIR who-may-call / def-use for the single reader, single handler call and the batch hand-over; THIR tables for source priorities",
           "Decides on every feasible path of the collect loop: an event is pushed exactly once iff it is urgent, empty or passed by the filter, never when "
           "rejected or errored (error reported once, loop continues); every returned batch is the accumulated set and non-empty; the queue has one reader "
-          "and the handler one call site per batch with the collected batch as argument; sources use the documented priorities and report failed sends. "
+          "and the handler one call site per batch with the collected batch as argument; sources use the documented priorities and report failed sends; the "
+          "collector gives up only when the queue is closed; the main task is wired to the two ends of the queue and started by main(); fs events carry the "
+          "notify kind and one normalised Path tag per path; `empty` means no tags. "
           "Channel semantics and real watcher behaviour are not decided.",
           "trusts async_priority_channel delivery semantics, notify back-ends, tokio timeout; the filter is an opaque verdict",
           "DESIGN.md section 5 C01")
     claim("C02", "other", TC + "; guard-structure rules on the release/hold decisions; derived-Ord table for Priority",
           "Decides the guard structure: the window start moves only when the set is empty and always when a possibly-first event is accepted; a batch is "
           "released only through the urgent edge, the false edge of last.elapsed() < throttle.get(), or the expired remaining window with a non-empty set; "
-          "all comparisons read the throttle freshly; the recv timeout is the freshly computed remaining window. Wall-clock accuracy is not decided.",
+          "all comparisons read the throttle freshly; the recv timeout is the freshly computed remaining window; the CLI's --debounce (unit-less = "
+          "milliseconds) reaches Config::throttle unchanged. Wall-clock accuracy is not decided.",
           "trusts tokio's timer and Instant; 'bounded delay' is structural (shrinking timeout), not measured", "DESIGN.md section 5 C02")
     claim("C13", "other", "protocol table for the change-signal pair (notifier/waiter primitives), MIR must-pass 'replace => reset' on the fs worker's shadow set, THIR iteration paths of the unwatch/watch loops, crate-wide lock-guard live-range scan, setter must-pass rules",
           "Decides necessary conditions for convergence: no change signal can be lost while a worker is busy (stateful watch receiver), the shadow set is "
           "cleared on every path after the watcher is taken or replaced, remove/insert happen exactly on the success edges and failures are reported "
-          "without stopping the loop, an empty set releases the watcher, no lock guard is live across an await or a user callback, and every public "
-          "setter signals the change. It does not explore change sequences and does not model notify's watchers.",
+          "without stopping the loop, no lock guard is live across an await or a user callback, every public setter signals the change, and - over all "
+          "syntactic paths of one worker round - the round is the documented transfer function (await the subscription first; empty set => release; "
+          "watcher created => kind recorded and shadow set cleared; watcher kept => evidence that it exists with the configured kind; diff = (C\\S, S\\C) "
+          "with the watch-all shortcut only when S is empty); the subscription returns at once the first time. It does not explore change sequences "
+          "and does not model notify's watchers.",
           "trusts tokio::sync::watch semantics (receiver remembers the last seen version), notify's watch()/unwatch(), HashSet",
           "DESIGN.md section 5 C13")
     claim("C08", "other", "ownership chain of job-task JoinHandles (MIR def-use / who-may-call), dominance of take-over before the quit decision, THIR path shapes of the abort/graceful arms and the main task, pattern-semantics table of process wrappers, CLI quit condition structure",
           "Decides necessary conditions: every job task's JoinHandle ends up owned by the worker before quit is examined (also for a job created in the "
           "quitting action), Abort breaks and dropping the task set aborts every task with KillOnDrop children, the graceful path stops+deletes every "
           "job and joins everything before leaving, the main task shuts the other workers down, quit()/quit_gracefully() record what was asked, the CLI "
-          "quits on an unmapped interrupt/terminate, and session/group wrappers follow the options. The time bound itself is not decided.",
+          "quits on an unmapped interrupt/terminate, session/group wrappers follow the options, and LateJoinSet keeps what is inserted, spawns what it is "
+          "given and join_all returns only when join_next() yields None. The time bound itself is not decided.",
           "trusts tokio JoinHandle::abort / JoinSet::shutdown, process-wrap's group and session semantics; termination of the graceful path rests on C06/C07",
           "DESIGN.md section 5 C08")
     claim("C15", "other", "THIR path enumeration of the filter-error paths, the fs apply loops, error_hook and the main task's result match; who-constructs rule for RuntimeError; lock-guard live ranges",
           "Decides on every path: one error-channel send per filter error / per failed path with the loop continuing, exactly one handler call and one "
           "critical-slot check per received error, Exit pseudo-errors close the queue while real critical errors end the main task, constructed "
-          "RuntimeErrors are returned or sent, the watcher callback sends at most once, ErrorHook is consumed by elevation, handlers run without the lock. "
+          "RuntimeErrors are returned or sent, the watcher callback sends at most once, ErrorHook is consumed by elevation and critical()/elevate() store "
+          "into the slot error_hook reads, a failed (un)watch always yields at least one error of the matching add/remove kind, handlers run without the lock. "
           "Channel delivery itself is trusted.",
           "trusts tokio mpsc (bounded, lossless for send().await), OnceLock; what user handlers do is opaque", "DESIGN.md section 5 C15")
     claim("C03", "other", "THIR path enumeration of IgnoreFilter::match_path's search loop with boolean implication on the containment test (taint-style: string-prefix lookup -> component check -> consult), deny-list of order-destroying combinators on the load chain, MIR def-use for per-directory scoping of add_line / trie keys",
           "Decides the scoping structure: a trie node found by string-prefix lookup is consulted only after a component-wise ancestor test, undecided "
           "nodes continue with the parent of their key, files are loaded in listed order, every pattern line is scoped to its file's directory and "
-          "stored under that directory's key, and consumers re-check the scope of positive matches. What a glob matches (and agreement with git) is the "
+          "stored under that directory's key, every non-blank non-comment line reaches add_line and nothing ends a line loop early, an existing directory "
+          "node is never replaced by an empty one, and the two consumers implement the full verdict table (None / Whitelist / Ignore in and out of "
+          "scope) on the normalised path. What a glob matches (and agreement with git) is the "
           "`ignore` crate's business and is not decided.",
           "trusts the ignore crate's Gitignore matching, radix_trie::get_ancestor being a string-prefix lookup, Path::starts_with being component-wise",
           "DESIGN.md section 5 C03")
@@ -114,14 +124,16 @@ def register(claim, na):
     claim("C11", "other", "THIR path enumeration of GlobsetFilterer::check_event and of its per-path closure (decision order and verdict per outcome), wiring rules on GlobsetFilterer::new, pattern-semantics table for the CLI's fs-event kinds",
           "Decides the decision structure: whitelist first (equality scan) => pass; ignore files => reject; no paths => pass; otherwise `any` over paths "
           "where ignore patterns are consulted first and reject, filter patterns precede extensions, directories are offered to filter patterns before "
-          "the extension rule rejects them, `true` only after a filter/extension match, fall-through !filtered; arguments are wired to the same-named "
+          "the extension rule rejects them, and the verdict of every one of the 18 syntactic paths of the per-path decision equals the documented function "
+          "of the evidence on that path (ignored, filter match, directory, extension match, nothing configured); arguments are wired to the same-named "
           "fields; CLI stage order and kind table. What a glob matches is not decided.",
           "trusts the ignore crate's Gitignore::matched; the monotonicity clause is decided structurally (ignore patterns can only yield false)",
           "DESIGN.md section 5 C11")
     claim("C05", "other", "THIR path enumeration of the CLI's busy-decision coroutine and of the queued-start task (mode -> effect table with argument provenance), structural rules on the run_async placement, the skip condition (boolean implication), the shorthands and the kick-off",
           "Decides the decision table on every path: what each --on-busy-update mode does when running and when idle, with the right signal / timeout "
           "arguments; that the decision reads the job's state inside the job task; the queue guard and ordering of the queued task; shorthands; kick-off; "
-          "single job id; that only batches without a path and without the synthetic event are skipped. Freshness and overlap under real timings are not decided.",
+          "single job id; that only batches without a path and without the synthetic event are skipped; that the action worker forgets a job only when it "
+          "is dead. Freshness and overlap under real timings are not decided.",
           "non-overlap is delegated to C04 + the single job id; the Job API table is shared with C09/C10", "DESIGN.md section 5 C05")
     claim("C12", "other", "THIR path enumeration of WatchexecFilterer::new and dirs::ignores over all branch values of the discovery flags (path-level, so all 64 combinations at once); ordering rule 'explicit entries appended after every flag-guarded filter'",
           "Decides on every path: the explicit options are consumed whatever the flags are, --ignore-file entries are loaded either through "
@@ -131,5 +143,7 @@ def register(claim, na):
     claim("C14", "other", "THIR path enumeration of visit_path (gates for Find and an exact outcome table per directory entry), of from_origin's Find arm (found => filter updated before the next lookup), guard analysis of find_file, cross-crate marker-directory table, crate-wide lint against string-prefix tests on rendered paths",
           "Decides: files are recorded only for regular non-empty files; a directory is searched only past the skip list, check_dir and the two-way watch "
           "relation; directory entries are pruned/queued exactly in the five documented cases; each found file updates the walk's filter before the next "
-          "lookup; the name/VCS tables; VCS metadata directories are skipped; no string-prefix path comparison. Exactness over all trees inherits the matcher.",
+          "lookup; the name/VCS tables; VCS metadata directories are skipped; no string-prefix path comparison; must_skip is `the path or an ancestor below "
+          "the base is on the skip list`, next() visits every queued directory before Done, and check_dir follows the C03 verdict table. Exactness over all "
+          "trees inherits the matcher.",
           "trusts tokio::fs read_dir/metadata and the C03 matcher", "DESIGN.md section 5 C14")
